@@ -756,7 +756,21 @@ func (r *vC12Res) bigSample(lsm1 int, ns []vC12N, b []byte, d vC12SDec) {
 		total += 1 + len(n.data)
 	}
 	if want := vC12IsoSample(lsm1, vC12Bytes(ns)); !bytes.Equal(b, want) {
-		r.bad("sample-layout", fmt.Sprintf("length size %d, %d NALUs, %d bytes in total: marshalled %d bytes, the reference writer %d", lsm1+1, len(ns), total, len(b), len(want)))
+		i := 0
+		for i < len(b) && i < len(want) && b[i] == want[i] {
+			i++
+		}
+		lo, hi := i-4, i+4
+		if lo < 0 {
+			lo = 0
+		}
+		if hi > len(b) {
+			hi = len(b)
+		}
+		if hi > len(want) {
+			hi = len(want)
+		}
+		r.bad("sample-layout", fmt.Sprintf("length size %d, %d NALUs, %d bytes in total: marshalled %d bytes, the reference writer %d; first difference at byte %d: ...%x... instead of ...%x...", lsm1+1, len(ns), total, len(b), len(want), i, b[lo:hi], want[lo:hi]))
 	} else if d.err != nil || !vC12NsEq(d.nalus, ns) {
 		r.bad("sample-rt", fmt.Sprintf("length size %d, %d NALUs, %d bytes in total: read back %d NALUs, err %v", lsm1+1, len(ns), total, len(d.nalus), d.err))
 	}
@@ -796,6 +810,17 @@ func vC12Scribble(b []byte) {
 	for i := range b {
 		b[i] = 0xee
 	}
+}
+
+// MarshalBinary under recover: a panic (on whatever goroutine this runs) comes back as text
+func (o *vC12Obj) safeMarshal() (b []byte, err error, panicked string) {
+	defer func() {
+		if x := recover(); x != nil {
+			b, err, panicked = nil, nil, fmt.Sprint(x)
+		}
+	}()
+	b, err = o.marshal()
+	return
 }
 
 func (o *vC12Obj) marshal() ([]byte, error) {
@@ -957,7 +982,12 @@ func (r *vC12Res) history(c vSx) {
 				}
 			}
 		case code == 2:
-			b, err := o.marshal()
+			b, err, pmsg := o.safeMarshal()
+			if pmsg != "" {
+				outs = append(outs, vPanicObs())
+				r.bad("no-panic", fmt.Sprintf("MarshalBinary of slot %d (kind %d) panicked inside a history: %s", k, o.kind, pmsg))
+				continue
+			}
 			if err != nil {
 				outs = append(outs, vErr(99))
 				r.bad("history-marshal", "MarshalBinary failed: "+err.Error())
@@ -975,9 +1005,15 @@ func (r *vC12Res) history(c vSx) {
 			var e1, e2 error
 			var wg sync.WaitGroup
 			wg.Add(2)
-			go func() { defer wg.Done(); b1, e1 = o.marshal() }()
-			go func() { defer wg.Done(); b2, e2 = o2.marshal() }()
+			var p1, p2 string
+			go func() { defer wg.Done(); b1, e1, p1 = o.safeMarshal() }()
+			go func() { defer wg.Done(); b2, e2, p2 = o2.safeMarshal() }()
 			wg.Wait()
+			if p1 != "" || p2 != "" {
+				outs = append(outs, vPanicObs())
+				r.bad("no-panic", fmt.Sprintf("concurrent MarshalBinary of slots %d and %d panicked inside a history: %s%s", k, op.l[2].int(), p1, p2))
+				continue
+			}
 			if e1 != nil || e2 != nil {
 				outs = append(outs, vErr(99))
 				r.bad("history-marshal", "concurrent MarshalBinary failed")
